@@ -537,6 +537,7 @@ def writer_table(facts, ap):
             continue
         pred = None
         long_form = False
+        value_guard = None
         for (a, succ, c) in dom_guards(ap, bb, cd):
             ct = cond_truth(c)
             if not ct:
@@ -547,12 +548,15 @@ def writer_table(facts, ap):
                 pred = ("flag", f)
             elif term[0] == "bin" and term[1] in ("Gt", "Ge") and truth:
                 long_form = True
+            elif term[0] == "bin" and term[1] in ("Eq", "Ne") and len(term) > 4 and term[4] in ("f32", "f64") and f == fld:
+                # the field's own value decides whether it is written at all
+                value_guard = "%s %s %s" % (fld, "!=" if (term[1] == "Ne") == truth else "==", fmt(term[3])[:12])
         kind = KIND_W[sh]
         if sh == "write_flag_str":
             pred = ("is_some", fld)
         elif sh == "write_string" and pred is None:
             pred = ("always", fld)
-        rows.append({"field": fld, "kind": kind, "pred": pred, "long": long_form, "order": idx.get(bb, 0), "line": t["line"]})
+        rows.append({"field": fld, "kind": kind, "pred": pred, "long": long_form, "order": idx.get(bb, 0), "line": t["line"], "value_guard": value_guard})
     return rows
 
 
@@ -583,6 +587,9 @@ def run(facts, rep, ctx):
     ww = "%s:%s" % (ap.file, ap.line)
     # helper callee checks: write_flag_str writes iff Some ; read_flag_str tests bit `index`
     helper_checks(facts, rep, R1)
+    for w_ in wrows:
+        if w_.get("value_guard"):
+            rep.violation(R1, ap.name, "float-written-conditionally:" + w_["field"], "`%s` is written only when %s (a floating-point comparison): -0.0 compares equal to 0.0, is not written, and reads back as +0.0 -- the value is not bit-identical after a round trip" % (w_["field"], w_["value_guard"]), "%s:%s" % (ap.file, w_["line"]))
     # ---- order ------------------------------------------------------------------------------------
     rseq = [r["field"] for r in rrows]
     wseq = [w["field"] for w in wrows]
@@ -738,8 +745,88 @@ def helper_checks(facts, rep, R1):
                 rep.violation(R1, b.name, "helper-write", "write_flag_str does not write exactly when the value is Some", "%s:%s" % (b.file, b.line))
 
 
+def early_return_rule(facts, rep, R2, rd, rrows):
+    """An Ok return of the record reader that the reads of the extended fields cannot reach is an early exit.  Its
+    guards are evaluated on a witness record whose flag bytes are [01 00 00 00 | FF FF FF 00] (no basic string, long
+    form, every extended field announced): if they all hold there, the reader hands the record back without consuming
+    the extended fields, and every later record is read from the wrong place."""
+    from summ import Evaluator, Unknown, Panic
+    rw = "%s:%s" % (rd.file, rd.line)
+    ext_blocks = set()
+    for bi, si, st in rd.stmts():
+        if st["k"] == "assign" and st["lhs"]["p"] and isinstance(st["lhs"]["p"][0], dict) and st["lhs"]["p"][0].get("adt") == SPEC:
+            nm = st["lhs"]["p"][0].get("name")
+            row = [r for r in rrows if r["field"] == nm and isinstance(r["bit"], int) and r["bit"] >= 32]
+            if row:
+                ext_blocks.add(bi)
+    if not ext_blocks:
+        return
+    ok_sites = []
+    for bi, si, st in rd.stmts():
+        if st["k"] == "assign" and st["lhs"]["l"] == 0 and not st["lhs"]["p"] and st["rv"]["k"] == "agg" and st["rv"].get("variant") == "Ok" and not rd.blocks[bi]["cleanup"]:
+            ok_sites.append((bi, st.get("line")))
+
+    def reaches(a, b):
+        seen, todo = set(), [a]
+        while todo:
+            x = todo.pop()
+            if x == b:
+                return True
+            if x in seen:
+                continue
+            seen.add(x)
+            todo.extend(rd.succs(x))
+        return False
+    W = [1, 0, 0, 0, 0xFF, 0xFF, 0xFF, 0]
+
+    def subst(t):
+        """flag-byte reads `flags[k]` -> the witness byte"""
+        if not isinstance(t, tuple) or not t:
+            return t
+        if t[0] == "index" and strip_refs(t[2])[0] == "const" and isinstance(strip_refs(t[2])[1], int) and strip_refs(t[2])[1] < 8:
+            return ("const", W[strip_refs(t[2])[1]], "u8")
+        if t[0] == "call" and "ops::Index" in t[1] and t[1].endswith("::index") and len(t[2]) == 2:
+            k_ = strip_refs(t[2][1])
+            if k_[0] == "const" and isinstance(k_[1], int) and k_[1] < 8:
+                return ("const", W[k_[1]], "u8")
+        if t[0] in ("deref", "ref"):
+            inner = subst(t[1])
+            return inner if inner[0] == "const" else (t[0], inner) + tuple(t[2:])
+        return tuple(subst(x) if isinstance(x, tuple) else x for x in t)
+    E = Evaluator(facts)
+    for site, line in ok_sites:
+        if all(reaches(eb, site) for eb in ext_blocks):
+            continue
+        gs = dom_guards(rd, site, None)
+        flagy = [(a, s_, c) for (a, s_, c) in gs if any(x[0] == "index" or (x[0] == "call" and "ops::Index" in x[1] and x[1].endswith("::index")) for x in walk(c[0]))]
+        if not flagy:
+            continue
+        holds = True
+        for (a, s_, c) in flagy:
+            term, vals, neg, dty = c
+            try:
+                v = E.ev(subst(term), {}, rd, 0)
+            except (Unknown, Panic, Exception):
+                holds = None
+                break
+            if isinstance(v, bool):
+                v = int(v)
+            if (v in vals) == neg:
+                holds = False
+                break
+        if holds:
+            rep.violation(R2, rd.name, "early-return", "the reader returns the record at line %s when %s; that also holds for a long-form record (bit 0 set) whose flag bytes 4..6 announce extended fields: they are left unread and the next record starts in the middle of this one" % (
+                line, fmt(flagy[-1][2][0])[:70]), rw)
+        elif holds is None:
+            rep.inconc(R2, "an early Ok return at line %s is guarded by a condition on the flag bytes that was not evaluated" % line)
+
+
 def form_rules(facts, rep, R2, rd, cf, ap, ftab, rrows=()):
     rw = "%s:%s" % (rd.file, rd.line)
+    try:
+        early_return_rule(facts, rep, R2, rd, rrows)
+    except Exception as ex:
+        rep.inconc(R2, "early-return rule not evaluated: %s" % ex)
     # reader: flag_count = 3 (+4 iff raw & 1): evaluate from the defs of the count variable
     cnt_defs = []
     for l in range(len(rd.locals)):
